@@ -54,11 +54,6 @@ greatest address ≤ pc of the table (pc lies inside the sequence `r` belongs to
 def IsPcRow (rows : Array Row) (pc : Nat) (r : Row) : Prop :=
   (∃ i : Nat, rows[i]? = some r) ∧ r.es = false ∧ r.addr ≤ pc ∧ ∀ (j : Nat) (r' : Row), rows[j]? = some r' → r'.addr ≤ pc → r'.addr ≤ r.addr
 
-/-- the property at full strength: whenever the table has an answer for `pc`, the lookup returns such a row. -/
-def C04_pc_to_row_full : Prop :=
-  ∀ (rows : Array Row) (pc : Nat), RowsSorted rows → (∃ r, IsPcRow rows pc r) →
-    ∃ p r, findPlaceByPc rows pc = some (p, r) ∧ IsPcRow rows pc r
-
 /-- no end_sequence row shares its address with a row that is not one (decidable: a Bool) -/
 def noSharedEndSeqB (rows : Array Row) : Bool :=
   rows.all fun r => rows.all fun r' => !(r.es && !r'.es && r.addr == r'.addr)
@@ -66,7 +61,7 @@ def NoSharedEndSeq (rows : Array Row) : Prop := noSharedEndSeqB rows = true
 instance (rows : Array Row) : Decidable (NoSharedEndSeq rows) := by unfold NoSharedEndSeq; infer_instance
 
 /-- among rows of equal address, end_sequence rows are stored BEFORE the others
-(what the proposed repair — stable sort by `(address, !end_sequence)` — establishes) -/
+(what the parser's sort by `(address, !end_sequence)` establishes: `storeRows_endSeqFirst`) -/
 def EndSeqFirstOnTies (rows : Array Row) : Prop :=
   ∀ (i j : Nat) (ri rj : Row), rows[i]? = some ri → rows[j]? = some rj → ri.addr = rj.addr → ri.es = true → rj.es = false → i < j
 
@@ -86,9 +81,10 @@ theorem noShared_index {rows : Array Row} (h : NoSharedEndSeq rows) {i j : Nat} 
   intro he
   simp [hes, hne, he] at h2
 
-/-- **C04_pc_to_row_repaired.** If end_sequence rows come first among rows of equal address, the full
-statement holds: the returned row is a non-end row of greatest address ≤ pc. -/
-theorem C04_pc_to_row_repaired (rows : Array Row) (pc : Nat) (hs : RowsSorted rows)
+/-- **C04_pc_to_row_stored.** On every table sorted by address in which end_sequence rows come first among rows of
+equal address — the two facts the parser's sort establishes — the lookup returns a non-end row of greatest
+address ≤ pc whenever the table has one. -/
+theorem C04_pc_to_row_stored (rows : Array Row) (pc : Nat) (hs : RowsSorted rows)
     (ht : EndSeqFirstOnTies rows) (hex : ∃ r, IsPcRow rows pc r) :
     ∃ p r, findPlaceByPc rows pc = some (p, r) ∧ IsPcRow rows pc r := by
   obtain ⟨w, ⟨iw, hiw⟩, hwes, hwle, hwmax⟩ := hex
@@ -115,46 +111,104 @@ theorem C04_pc_to_row_repaired (rows : Array Row) (pc : Nat) (hs : RowsSorted ro
     · have := hs j p hlt (lt_of_getElem? hp); rwa [keyOf_some hj, keyOf_some hp] at this
     · have := hafter j r' (by omega) hj; omega
 
-/-- **C04_pc_to_row_partial.** Under `NoSharedEndSeq` (no end_sequence row shares an address with another
-kind of row) the full statement holds. -/
-theorem C04_pc_to_row_partial (rows : Array Row) (pc : Nat) (hs : RowsSorted rows)
-    (hn : NoSharedEndSeq rows) (hex : ∃ r, IsPcRow rows pc r) :
-    ∃ p r, findPlaceByPc rows pc = some (p, r) ∧ IsPcRow rows pc r :=
-  C04_pc_to_row_repaired rows pc hs
-    (fun _ _ _ _ hi hj he hes hne => absurd he (noShared_index hn hi hj hes hne)) hex
+/-! the parser's sort (`storeRows`: stable merge sort by `(address, !end_sequence)`) establishes both facts, for
+EVERY line program -/
 
-/-- the witness: function A = rows at 0x10 (line 5) with its end_sequence row at 0x20; the next function's
-first row (line 9) is also at 0x20 and the unstable sort stored it BEFORE the end_sequence row. -/
-def cexRows : Array Row := #[
+theorem rowLe_trans (a b c : Row) (h1 : rowLe a b = true) (h2 : rowLe b c = true) : rowLe a c = true := by
+  unfold rowLe at *
+  simp only [Bool.or_eq_true, decide_eq_true_eq, Bool.and_eq_true, beq_iff_eq, Bool.not_eq_true'] at *
+  rcases h1 with h1 | ⟨h1, h1'⟩ <;> rcases h2 with h2 | ⟨h2, h2'⟩
+  · exact Or.inl (by omega)
+  · exact Or.inl (by omega)
+  · exact Or.inl (by omega)
+  · refine Or.inr ⟨by omega, ?_⟩
+    rcases h1' with h | h
+    · exact Or.inl h
+    · rcases h2' with h' | h'
+      · rw [h] at h'; cases h'
+      · exact Or.inr h'
+
+theorem rowLe_total (a b : Row) : (rowLe a b || rowLe b a) = true := by
+  unfold rowLe
+  simp only [Bool.or_eq_true, decide_eq_true_eq, Bool.and_eq_true, beq_iff_eq, Bool.not_eq_true']
+  by_cases h1 : a.addr < b.addr
+  · exact Or.inl (Or.inl h1)
+  · by_cases h2 : b.addr < a.addr
+    · exact Or.inr (Or.inl h2)
+    · have he : a.addr = b.addr := by omega
+      cases ha : a.es
+      · exact Or.inr (Or.inr ⟨he.symm, Or.inr rfl⟩)
+      · exact Or.inl (Or.inr ⟨he, Or.inl rfl⟩)
+
+theorem storeRows_pairwise (prog : List Row) {i j : Nat} {ri rj : Row} (hij : i < j)
+    (hi : (storeRows prog)[i]? = some ri) (hj : (storeRows prog)[j]? = some rj) : rowLe ri rj = true := by
+  have hp := List.pairwise_mergeSort rowLe_trans rowLe_total prog
+  rw [List.pairwise_iff_getElem] at hp
+  unfold storeRows at hi hj
+  have hjl : j < (prog.mergeSort rowLe).length := by
+    have := lt_of_getElem? hj; simpa using this
+  have hil : i < (prog.mergeSort rowLe).length := by omega
+  have h := hp i j hil hjl hij
+  have ei : (prog.mergeSort rowLe)[i] = ri := by
+    have : (prog.mergeSort rowLe)[i]? = some ri := by simpa using hi
+    simpa [List.getElem?_eq_getElem hil] using this
+  have ej : (prog.mergeSort rowLe)[j] = rj := by
+    have : (prog.mergeSort rowLe)[j]? = some rj := by simpa using hj
+    simpa [List.getElem?_eq_getElem hjl] using this
+  rw [ei, ej] at h
+  exact h
+
+theorem storeRows_sorted (prog : List Row) : RowsSorted (storeRows prog) := by
+  intro i j hij hj
+  by_cases he : i = j
+  · subst he; exact Nat.le_refl _
+  · obtain ⟨rj, hrj⟩ := getElem?_of_lt (storeRows prog) hj
+    obtain ⟨ri, hri⟩ := getElem?_of_lt (storeRows prog) (show i < (storeRows prog).size by omega)
+    have h := storeRows_pairwise prog (by omega) hri hrj
+    rw [keyOf_some hri, keyOf_some hrj]
+    unfold rowLe at h
+    simp only [Bool.or_eq_true, decide_eq_true_eq, Bool.and_eq_true, beq_iff_eq] at h
+    rcases h with h | ⟨h, _⟩ <;> omega
+
+theorem storeRows_endSeqFirst (prog : List Row) : EndSeqFirstOnTies (storeRows prog) := by
+  intro i j ri rj hi hj haddr hes hnes
+  by_cases hlt : i < j
+  · exact hlt
+  · exfalso
+    have hne : i ≠ j := by
+      intro he; subst he; rw [hi] at hj; injection hj with hj; subst hj; rw [hes] at hnes; cases hnes
+    have h := storeRows_pairwise prog (show j < i by omega) hj hi
+    unfold rowLe at h
+    simp only [Bool.or_eq_true, decide_eq_true_eq, Bool.and_eq_true, beq_iff_eq, Bool.not_eq_true'] at h
+    rcases h with h | ⟨_, h | h⟩
+    · omega
+    · rw [hnes] at h; cases h
+    · rw [hes] at h; cases h
+
+/-- the stored rows are the rows of the line program (a permutation: nothing lost, nothing invented) -/
+theorem storeRows_perm (prog : List Row) : (storeRows prog).toList.Perm prog := by
+  unfold storeRows; simpa using List.mergeSort_perm prog rowLe
+
+/-- **C04_pc_to_row** (full strength; was false before the repair of the parser's sort, when the end_sequence row of the
+previous sequence could be stored after the first row of the next function and was returned for its address).
+For EVERY line program and every pc: if the rows as the parser stores them have a non-end row of greatest address ≤ pc,
+`find_place_by_pc` returns such a row — never an end_sequence row. -/
+theorem C04_pc_to_row (prog : List Row) (pc : Nat) (hex : ∃ r, IsPcRow (storeRows prog) pc r) :
+    ∃ p r, findPlaceByPc (storeRows prog) pc = some (p, r) ∧ IsPcRow (storeRows prog) pc r :=
+  C04_pc_to_row_stored _ pc (storeRows_sorted prog) (storeRows_endSeqFirst prog) hex
+
+/-- the witness of the repaired defect: function A = rows at 0x10 (line 5) with its end_sequence row at 0x20; the next
+function's first row (line 9) is also at 0x20 and comes BEFORE the end_sequence row in the line program (the order the
+unstable sort used to leave).  Sanity tests, evaluated: the stored order puts the end_sequence row first and the
+lookup answers line 9. -/
+def cexProg : List Row := [
   { addr := 0x10, file := 1, line := 5, col := 1, stmt := true, pe := false, eb := false, es := false },
   { addr := 0x20, file := 1, line := 9, col := 1, stmt := true, pe := true,  eb := false, es := false },
   { addr := 0x20, file := 1, line := 5, col := 1, stmt := true, pe := false, eb := false, es := true  }]
-
-theorem cexRows_sorted : RowsSorted cexRows := by
-  intro i j hij hj
-  have hj3 : j < 3 := hj
-  have : i = 0 ∨ i = 1 ∨ i = 2 := by omega
-  have : j = 0 ∨ j = 1 ∨ j = 2 := by omega
-  rcases ‹i = 0 ∨ i = 1 ∨ i = 2› with rfl | rfl | rfl <;> rcases ‹j = 0 ∨ j = 1 ∨ j = 2› with rfl | rfl | rfl <;>
-    first | omega | decide
-
-/-- **C04_pc_to_row_counterexample.** On the unchanged code the full statement is false: for pc = 0x20 the table
-has the answer "line 9" but the lookup returns the end_sequence row (line 5) of the previous function. -/
-theorem C04_pc_to_row_counterexample : ¬ C04_pc_to_row_full := by
-  intro h
-  have hex : ∃ r, IsPcRow cexRows 0x20 r := by
-    refine ⟨{ addr := 0x20, file := 1, line := 9, col := 1, stmt := true, pe := true, eb := false, es := false }, ⟨1, by decide⟩, rfl, by decide, ?_⟩
-    intro j r' hj hle
-    have hj3 : j < 3 := lt_of_getElem? hj
-    have : j = 0 ∨ j = 1 ∨ j = 2 := by omega
-    rcases this with rfl | rfl | rfl <;> (simp [cexRows] at hj; subst hj; decide)
-  obtain ⟨p, r, hf, _, hes, _⟩ := h cexRows 0x20 cexRows_sorted hex
-  have : findPlaceByPc cexRows 0x20 = some (2, cexRows[2]) := by decide
-  rw [this] at hf
-  injection hf with hf
-  injection hf with _ hr
-  subst hr
-  revert hes; decide
+#guard ((storeRows cexProg).map (·.line)) == #[5, 5, 9]
+#guard (findPlaceByPc (storeRows cexProg) 0x20).map (·.2.line) == some 9
+#guard (findPlaceByPc cexProg.toArray 0x20).map (·.2.line) == some 5      -- the order before the repair: line 5
+#guard (match findExactPlaceByPc (storeRows cexProg) 0x20 false with | .ok (some (_, r)) => r.line | _ => 0) == 9
 
 /-! ## pc → unit -/
 
@@ -342,87 +396,134 @@ theorem C04_pc_to_function (u : CUnit) (pc : Nat) (hs : SortedKey (keyOf u.fnRan
 
 /-! ## function → breakpoint address (`prolog_end_place`) -/
 
-/-- the walk returns a stored row at or after the start; no row strictly before it (from the start) is a
-prologue_end row; it stops at a prologue_end row, or when the fuel / the rows run out. -/
-theorem peWalk_spec (rows : Array Row) : ∀ fuel i r, rows[i]? = some r →
-    rows[(peWalk rows fuel i r).1]? = some (peWalk rows fuel i r).2 ∧ i ≤ (peWalk rows fuel i r).1 ∧
-    (∀ (k : Nat) (rk : Row), i ≤ k → k < (peWalk rows fuel i r).1 → rows[k]? = some rk → rk.pe = false) ∧
-    ((peWalk rows fuel i r).2.pe = true ∨ (peWalk rows fuel i r).1 = i + fuel ∨ rows[(peWalk rows fuel i r).1 + 1]? = none) := by
+/-- what `prolog_end_place` accepts as the end of the prologue: a prologue_end row that does not end a sequence,
+inside the function's ranges -/
+def IsFnPE (ranges : List Rng) (r : Row) : Bool := r.pe && !r.es && inFnRanges ranges r.addr
+
+/-- the walk returns a stored row at or after the start that is a prologue_end row of the function below its end,
+and no row between the start and it is one. -/
+theorem peWalkIn_some (rows : Array Row) (ranges : List Rng) (endA : Nat) : ∀ fuel i j rj,
+    peWalkIn rows ranges endA fuel i = some (j, rj) →
+    rows[j]? = some rj ∧ i ≤ j ∧ IsFnPE ranges rj = true ∧ rj.addr < endA ∧
+    ∀ (k : Nat) (rk : Row), i ≤ k → k < j → rows[k]? = some rk → IsFnPE ranges rk = false := by
   intro fuel
   induction fuel with
-  | zero =>
-    intro i r h
-    exact ⟨by simpa [peWalk] using h, by simp [peWalk], by intro k rk h1 h2; simp [peWalk] at h2; omega, by simp [peWalk]⟩
+  | zero => intro i j rj h; simp [peWalkIn] at h
   | succ fuel ih =>
-    intro i r h
-    unfold peWalk
-    cases hpe : r.pe with
-    | true =>
-      exact ⟨by simpa using h, by simp, by intro k rk h1 h2; simp at h2; omega, by simp [hpe]⟩
-    | false =>
-      simp only [Bool.false_eq_true, if_false]
-      cases hn : rows[i + 1]? with
-      | none =>
-        exact ⟨by simpa using h, by simp, by intro k rk h1 h2; simp at h2; omega, by simp [hn]⟩
-      | some r' =>
-        simp only []
-        have := ih (i + 1) r' hn
-        refine ⟨this.1, by omega, ?_, ?_⟩
-        · intro k rk hik hk hrk
+    intro i j rj h
+    unfold peWalkIn at h
+    cases hr : rows[i]? with
+    | none => simp [hr] at h
+    | some r =>
+      simp only [hr] at h
+      by_cases hlt : r.addr < endA
+      · simp only [hlt, if_true] at h
+        by_cases hq : (r.pe && !r.es && inFnRanges ranges r.addr) = true
+        · simp only [hq, if_true] at h
+          injection h with h; injection h with h1 h2; subst h1; subst h2
+          exact ⟨hr, Nat.le_refl _, hq, hlt, by intro k rk h1 h2; omega⟩
+        · simp only [hq] at h
+          have := ih (i + 1) j rj h
+          refine ⟨this.1, by omega, this.2.2.1, this.2.2.2.1, ?_⟩
+          intro k rk hik hkj hrk
           by_cases he : k = i
-          · subst he; rw [h] at hrk; injection hrk with hrk; subst hrk; exact hpe
-          · exact this.2.2.1 k rk (by omega) hk hrk
-        · rcases this.2.2.2 with h1 | h1 | h1
-          · exact Or.inl h1
-          · exact Or.inr (Or.inl (by omega))
-          · exact Or.inr (Or.inr h1)
+          · subst he; rw [hr] at hrk; injection hrk with hrk; subst hrk
+            simpa [IsFnPE] using hq
+          · exact this.2.2.2.2 k rk (by omega) hkj hrk
+      · simp [hlt] at h
 
-/-- `HasPE rows i ranges`: the first prologue_end row stored at or after index `i` (the row found for the
-function's low_pc) exists and lies inside the function's ranges. -/
-def HasPE (rows : Array Row) (i : Nat) (ranges : List Rng) : Prop :=
-  ∃ (j : Nat) (rj : Row), i ≤ j ∧ rows[j]? = some rj ∧ rj.pe = true ∧ ranges.any (·.contains rj.addr) = true ∧
-    ∀ (k : Nat) (rk : Row), i ≤ k → k < j → rows[k]? = some rk → rk.pe = false
+/-- the place of a function breakpoint is EITHER the first prologue_end row of the function at or after the row found
+for its low_pc (stored order, below the function's end) OR, when there is none, that start row itself. -/
+theorem C04_fn_to_addr_cases (units : Array CUnit) (ranges : List Rng) (u j : Nat) (r : Row)
+    (h : prologEndPlace units ranges = some (u, j, r)) :
+    ∃ (lo i : Nat) (r0 : Row) (un : CUnit), lowPc ranges = some lo ∧ findPlaceFromPc units lo = some (u, i, r0) ∧
+      units[u]? = some un ∧
+      ((j = i ∧ r = r0) ∨
+       (un.rows[j]? = some r ∧ i ≤ j ∧ IsFnPE ranges r = true ∧
+        ∀ (k : Nat) (rk : Row), i ≤ k → k < j → un.rows[k]? = some rk → IsFnPE ranges rk = false)) := by
+  unfold prologEndPlace at h
+  cases hlo : lowPc ranges with
+  | none => simp [hlo] at h
+  | some lo =>
+    cases hend : endPc ranges with
+    | none => simp [hlo, hend] at h
+    | some endA =>
+      simp only [hlo, hend] at h
+      cases hp : findPlaceFromPc units lo with
+      | none => simp [hp] at h
+      | some p =>
+        obtain ⟨u', i, r0⟩ := p
+        simp only [hp] at h
+        cases hun : units[u']? with
+        | none => simp [hun] at h
+        | some un =>
+          simp only [hun] at h
+          cases hw : peWalkIn un.rows ranges endA (un.rows.size - i) i with
+          | none =>
+            simp only [hw] at h
+            injection h with h; injection h with h1 h; injection h with h2 h3
+            subst h1; subst h2; subst h3
+            exact ⟨lo, _, _, un, rfl, hp, hun, Or.inl ⟨rfl, rfl⟩⟩
+          | some q =>
+            obtain ⟨j', r'⟩ := q
+            simp only [hw] at h
+            injection h with h; injection h with h1 h; injection h with h2 h3
+            subst h1; subst h2; subst h3
+            have sp := peWalkIn_some un.rows ranges endA _ i j' r' hw
+            exact ⟨lo, _, _, un, rfl, hp, hun, Or.inr ⟨sp.1, sp.2.1, sp.2.2.1, sp.2.2.2.2⟩⟩
 
-/-- the property at full strength: the place of a function breakpoint is a row inside the function's ranges. -/
-def C04_fn_to_addr_full : Prop :=
-  ∀ (units : Array CUnit) (ranges : List Rng) (u j : Nat) (r : Row),
-    prologEndPlace units ranges = some (u, j, r) → ranges.any (·.contains r.addr) = true
+/-- **C04_fn_to_addr** (full strength; was false before the repair of `prolog_end_place`, which walked to the first
+prologue_end row of the UNIT, or to its last row).  For every table and every function whose low_pc lookup lands
+inside the function (its line program has a row for its first instruction), the place of the function breakpoint is
+a row inside the function's ranges. -/
+theorem C04_fn_to_addr (units : Array CUnit) (ranges : List Rng) (u j : Nat) (r : Row)
+    (h : prologEndPlace units ranges = some (u, j, r))
+    (hstart : ∀ lo i r0, lowPc ranges = some lo → findPlaceFromPc units lo = some (u, i, r0) →
+      ranges.any (·.contains r0.addr) = true) :
+    ranges.any (·.contains r.addr) = true := by
+  obtain ⟨lo, i, r0, un, hlo, hp, _, hc⟩ := C04_fn_to_addr_cases units ranges u j r h
+  rcases hc with ⟨_, rfl⟩ | ⟨_, _, hpe, _⟩
+  · exact hstart lo i r hlo hp
+  · simp only [IsFnPE, inFnRanges, Bool.and_eq_true] at hpe
+    exact hpe.2
 
-/-- **C04_fn_to_addr_partial.** If the pc lookup of the function's low_pc lands on row `i` of unit `u` and `HasPE`
-holds there, the function breakpoint is exactly that first prologue_end row: a row inside the function's ranges,
-marked prologue_end, with no prologue_end row between the low_pc row and it. -/
-theorem C04_fn_to_addr_partial (units : Array CUnit) (ranges : List Rng) (lo u i : Nat) (r : Row) (un : CUnit)
-    (hlo : lowPc ranges = some lo) (hplace : findPlaceFromPc units lo = some (u, i, r))
-    (hun : units[u]? = some un) (hrow : un.rows[i]? = some r) (hpe : HasPE un.rows i ranges) :
-    ∃ (j : Nat) (rj : Row), prologEndPlace units ranges = some (u, j, rj) ∧ un.rows[j]? = some rj ∧ rj.pe = true ∧
-      ranges.any (·.contains rj.addr) = true ∧ i ≤ j ∧
-      ∀ (k : Nat) (rk : Row), i ≤ k → k < j → un.rows[k]? = some rk → rk.pe = false := by
-  obtain ⟨j, rj, hij, hj, hjpe, hin, hbefore⟩ := hpe
-  have sp := peWalk_spec un.rows (un.rows.size - i) i r hrow
+/-- **C04_fn_to_addr_first_pe.** If a prologue_end row of the function exists at index `j` at or after the low_pc row,
+below the function's end, with no such row before it, the breakpoint is exactly that row. -/
+theorem C04_fn_to_addr_first_pe (units : Array CUnit) (ranges : List Rng) (lo endA u i : Nat) (r : Row) (un : CUnit)
+    (hlo : lowPc ranges = some lo) (hend : endPc ranges = some endA)
+    (hplace : findPlaceFromPc units lo = some (u, i, r)) (hun : units[u]? = some un)
+    (j : Nat) (rj : Row) (hij : i ≤ j) (hj : un.rows[j]? = some rj) (hpe : IsFnPE ranges rj = true)
+    (hbelow : ∀ (k : Nat) (rk : Row), i ≤ k → k ≤ j → un.rows[k]? = some rk → rk.addr < endA)
+    (hbefore : ∀ (k : Nat) (rk : Row), i ≤ k → k < j → un.rows[k]? = some rk → IsFnPE ranges rk = false) :
+    prologEndPlace units ranges = some (u, j, rj) := by
+  have key : ∀ fuel i', i ≤ i' → i' ≤ j → j < i' + fuel →
+      peWalkIn un.rows ranges endA fuel i' = some (j, rj) := by
+    intro fuel
+    induction fuel with
+    | zero => intro i' _ h2 h3; omega
+    | succ fuel ih =>
+      intro i' h1 h2 h3
+      unfold peWalkIn
+      by_cases he : i' = j
+      · subst he
+        have hl := hbelow i' rj h1 (Nat.le_refl _) hj
+        simp only [IsFnPE] at hpe
+        simp [hj, hl, hpe]
+      · have hi's : i' < un.rows.size := by have := lt_of_getElem? hj; omega
+        obtain ⟨rk, hrk⟩ := getElem?_of_lt un.rows hi's
+        have hl := hbelow i' rk h1 (by omega) hrk
+        have hn := hbefore i' rk h1 (by omega) hrk
+        simp only [IsFnPE] at hn
+        simp only [hrk, hl, if_true, hn, Bool.false_eq_true, if_false]
+        exact ih (i' + 1) (by omega) (by omega) (by omega)
   have hjs := lt_of_getElem? hj
-  -- the walk stops exactly at j
-  have hidx : (peWalk un.rows (un.rows.size - i) i r).1 = j := by
-    by_cases hlt : (peWalk un.rows (un.rows.size - i) i r).1 < j
-    · have hnot := hbefore _ _ sp.2.1 hlt sp.1
-      rcases sp.2.2.2 with h1 | h1 | h1
-      · rw [hnot] at h1; cases h1
-      · omega
-      · have : (peWalk un.rows (un.rows.size - i) i r).1 + 1 < un.rows.size := by omega
-        obtain ⟨x, hx⟩ := getElem?_of_lt un.rows this
-        rw [hx] at h1; cases h1
-    · by_cases hgt : j < (peWalk un.rows (un.rows.size - i) i r).1
-      · have := sp.2.2.1 j rj hij hgt hj
-        rw [this] at hjpe; cases hjpe
-      · omega
-  have hrow' : (peWalk un.rows (un.rows.size - i) i r).2 = rj := by
-    have := sp.1; rw [hidx, hj] at this; injection this with this; exact this.symm
-  refine ⟨j, rj, ?_, hj, hjpe, hin, hij, hbefore⟩
   unfold prologEndPlace
-  simp only [hlo, hplace, hun]
-  rw [← hidx, ← hrow']
+  simp only [hlo, hend, hplace, hun]
+  rw [key (un.rows.size - i) i (Nat.le_refl _) hij (by omega)]
 
-/-- the witness (shape of a `gcc -g -O0` object): two functions [0x10,0x20) and [0x20,0x30) in one sequence, no
-prologue_end row anywhere, end_sequence row at 0x30. -/
+/-- the witness of the repaired defect (shape of a `gcc -g -O0` object): two functions [0x10,0x20) and [0x20,0x30) in one
+sequence, no prologue_end row anywhere, end_sequence row at 0x30.  Before the repair BOTH functions got the
+end_sequence address 0x30, which is inside neither. -/
 def cexUnit : CUnit := {
   ranges := #[⟨0x10, 0x30⟩],
   files := #[0, 0],
@@ -435,18 +536,10 @@ def cexUnit : CUnit := {
   fnRanges := #[⟨0x10, 0x20, 100⟩, ⟨0x20, 0x30, 200⟩],
   fns := #[{ die := 100, name := some 0, ranges := [⟨0x10, 0x20⟩] }, { die := 200, name := some 1, ranges := [⟨0x20, 0x30⟩] }] }
 
-/-- **C04_fn_to_addr_counterexample.** On the unchanged code the full statement is false: without a prologue_end
-row the walk runs to the end of the unit; BOTH functions get the end_sequence address 0x30, which is inside neither. -/
-theorem C04_fn_to_addr_counterexample : ¬ C04_fn_to_addr_full := by
-  intro h
-  have h1 : prologEndPlace #[cexUnit] [⟨0x10, 0x20⟩] = some (0, 4, cexUnit.rows[4]) := by decide
-  have := h _ _ _ _ _ h1
-  revert this; decide
-
-/-- the second function of the witness gets the very same address -/
-theorem C04_fn_to_addr_counterexample_same_address :
-    (prologEndPlace #[cexUnit] [⟨0x10, 0x20⟩]).map (·.2.2.addr) = some 0x30 ∧
-    (prologEndPlace #[cexUnit] [⟨0x20, 0x30⟩]).map (·.2.2.addr) = some 0x30 := by decide
+/-- each function of the witness now gets its own first row (kernel-checked evaluation) -/
+theorem C04_fn_to_addr_witness :
+    (prologEndPlace #[cexUnit] [⟨0x10, 0x20⟩]).map (·.2.2.addr) = some 0x10 ∧
+    (prologEndPlace #[cexUnit] [⟨0x20, 0x30⟩]).map (·.2.2.addr) = some 0x20 := by decide
 
 /-! ## file:line → breakpoint places (`find_closest_place`) -/
 
@@ -614,7 +707,7 @@ theorem C04_line_to_addrs_counterexample : ¬ C04_line_to_addrs_complete_full :=
   subst hp
   revert hk; decide
 
-/-- a second witness, found by the correspondence run on std code (`core/src/fmt/mod.rs:820` in a stock binary): two functions whose
+/-- a witness found by the correspondence run on std code (`core/src/fmt/mod.rs:820` in a stock binary): two functions whose
 only row of line 35 is a prologue_end row with the SAME column and flags, adjacent in the file's row list. -/
 def cexPeUnit : CUnit := {
   ranges := #[⟨0x10, 0x20⟩],
@@ -626,16 +719,65 @@ def cexPeUnit : CUnit := {
   fnRanges := #[⟨0x10, 0x18, 100⟩, ⟨0x18, 0x20, 200⟩],
   fns := #[{ die := 100, name := some 0, ranges := [⟨0x10, 0x18⟩] }, { die := 200, name := some 1, ranges := [⟨0x18, 0x20⟩] }] }
 
-/-- **C04_line_to_addrs_counterexample_pe_lookahead.** Completeness also fails without any difference in column or flags: the
-look-ahead "prefer a prologue_end sibling" starts from a row that IS a prologue_end row, jumps to the next one and never comes
-back: `break file:35` yields only 0x18 (second function); the first function, whose row is identical, gets none. -/
-theorem C04_line_to_addrs_counterexample_pe_lookahead : ¬ C04_line_to_addrs_complete_full := by
-  intro h
-  have hres : findClosestPlace #[cexPeUnit] 7 35 = [(0, 1, cexPeUnit.rows[1])] := by decide
-  obtain ⟨p, hp, hk⟩ := h #[cexPeUnit] 7 35 0 0 cexPeUnit cexPeUnit.rows[0] 1 rfl (by decide) (by decide) (by decide) (by decide) (by decide) (by decide)
-  rw [hres] at hp
-  simp only [List.mem_singleton] at hp
-  subst hp
-  revert hk; decide
+/-- **C04_line_to_addrs_pe_lookahead_witness** (the repaired defect `line-breakpoint-skips-prologue-end-row-followed-by-another`).
+The look-ahead "prefer a prologue_end sibling" used to start from a row that IS a prologue_end row, jumped to the next one and
+never came back: `break file:35` yielded only 0x18 and the first function, whose row is identical, got none.  The starting row
+is now tested first: both functions get their place (kernel-checked evaluation of the model). -/
+theorem C04_line_to_addrs_pe_lookahead_witness :
+    findClosestPlace #[cexPeUnit] 7 35 = [(0, 0, cexPeUnit.rows[0]), (0, 1, cexPeUnit.rows[1])] := by decide
+
+/-! ## file line range → breakpoint-capable places (`find_places_in_line_range`) -/
+
+/-- **C04_file_range_places_sound** (was false before the repair: end_sequence rows were listed).  Every place listed for
+a file line range is a stored row of that file in some unit that is an is_stmt row, does NOT end a sequence, and whose
+line lies in the (ordered) range. -/
+theorem C04_file_range_places_sound (units : Array CUnit) (path a b : Nat) (p : Nat × Nat × Row)
+    (hp : p ∈ findPlacesInLineRange units path a b) :
+    p.2.2.stmt = true ∧ p.2.2.es = false ∧ min a b ≤ p.2.2.line ∧ p.2.2.line ≤ max a b ∧
+    ∃ un, units[p.1]? = some un ∧ un.rows[p.2.1]? = some p.2.2 := by
+  unfold findPlacesInLineRange at hp
+  -- the fold only keeps candidates
+  have hsub : ∀ (cands : List (Nat × Nat × Row)) (acc : List (Nat × Nat × Nat) × List (Nat × Nat × Row)) (q : Nat × Nat × Row),
+      q ∈ (cands.foldl (fun (acc : List (Nat × Nat × Nat) × List (Nat × Nat × Row)) (p : Nat × Nat × Row) =>
+        let key := (p.2.2.addr, p.2.2.line, p.2.2.col)
+        if acc.1.contains key then acc else (key :: acc.1, acc.2 ++ [p])) acc).2 → q ∈ acc.2 ∨ q ∈ cands := by
+    intro cands
+    induction cands with
+    | nil => intro acc q h; exact Or.inl h
+    | cons c cs ih =>
+      intro acc q h
+      rw [List.foldl_cons] at h
+      rcases ih _ q h with h1 | h1
+      · by_cases hc : acc.1.contains (c.2.2.addr, c.2.2.line, c.2.2.col) = true
+        · simp only [hc, if_true] at h1; exact Or.inl h1
+        · simp only [hc] at h1
+          rcases List.mem_append.mp h1 with h2 | h2
+          · exact Or.inl h2
+          · exact Or.inr (by simp at h2; simp [h2])
+      · exact Or.inr (List.mem_cons_of_mem _ h1)
+  have hlo : (if a ≤ b then a else b) = min a b := by split <;> omega
+  have hhi : (if a ≤ b then b else a) = max a b := by split <;> omega
+  rcases hsub _ _ p hp with h | h
+  · cases h
+  · simp only [hlo, hhi] at h
+    obtain ⟨⟨u, fl⟩, _, hq⟩ := List.mem_flatMap.mp h
+    simp only at hq
+    cases hun : units[u]? with
+    | none => simp [hun] at hq
+    | some un =>
+      simp only [hun] at hq
+      obtain ⟨i, _, hi⟩ := List.mem_filterMap.mp hq
+      cases hr : un.rows[i]? with
+      | none => simp [hr] at hi
+      | some r =>
+        simp only [hr] at hi
+        by_cases hc : (r.stmt && !r.es && decide (min a b ≤ r.line) && decide (r.line ≤ max a b)) = true
+        · simp only [hc, if_true] at hi
+          injection hi with hi; subst hi
+          simp only [Bool.and_eq_true, Bool.not_eq_true', decide_eq_true_eq] at hc
+          obtain ⟨⟨⟨h1, h2⟩, h3⟩, h4⟩ := hc
+          exact ⟨h1, h2, h3, h4, un, hun, hr⟩
+        · simp only [hc] at hi
+          cases hi
 
 end BsVerif.Lines
